@@ -276,7 +276,7 @@ def offsets(repo):
     consts_.append(('ITER_ENT_JSTEP', step(block_after(it, r'impl<\'a>\s+Iterator\s+for\s+ObjectEntryIterator<\'a>\s*\{'), 'jentry_offset')))
     consts_.append(('ITER_FILL_JSTEP', step(fn_body(it, 'fill_keys'), 'jentry_offset')))
     bl = strip_comments(open(os.path.join(repo, 'src/builder.rs')).read())
-    N_ = {'self.entries.len()': 'n'}
+    N_ = {'self.entries.len()': 'n', 'entries.len()': 'n'}
     ab = block_after(bl, r'impl<\'a>\s+ArrayBuilder<\'a>\s*\{')
     ob = block_after(bl, r'impl<\'a>\s+ObjectBuilder<\'a>\s*\{')
     for nm, body, var in (('ARR', fn_body(ab, 'build_into'), 'array_len'), ('OBJ', fn_body(ob, 'build_into'), 'object_len')):
